@@ -9,7 +9,7 @@ From Coq Require Import ZArith List Bool Permutation.
 From Batchie Require Import Lib.Sexp Model.Encode Model.Screen Model.Retro Model.Pairwise Model.RetroInit
   Proofs.C11Lib Proofs.C11Select Proofs.C11Holdout Proofs.C13Filter Proofs.C13Optimal Proofs.C13Size
   Proofs.C13NPlate Proofs.C13SampleSeg Proofs.C13SampleSegEven Proofs.C13Shapes Proofs.C13MergeLib Proofs.C13TopBottom
-  Proofs.C13MergeMin Proofs.C13MergeShapes Proofs.C13MergeMinPerSample Proofs.C11Init Proofs.C13Sparse Proofs.C13Pairwise
+  Proofs.C13MergeMin Proofs.C13MergeShapes Proofs.C13MergeMinPerSample Proofs.C13Ensemble Proofs.C11Init Proofs.C13Sparse Proofs.C13Pairwise
   Proofs.C13SparseTerm Proofs.C13PairwiseSingles Generated.SrcRetro Proofs.C11Source Generated.SrcRetroGen Proofs.C13Source Proofs.C13SourcePairwise.
 Import ListNotations.
 
@@ -344,6 +344,15 @@ Theorem C13_nplate_minimum : forall m rows ds out ds',
     (m <= Z.of_nat (length (sample_plates s (unobserved out))))%Z.
 Proof. exact nplate_minimum_w. Qed.
 Print Assumptions C13_nplate_minimum.
+
+(* ... and THROUGH the ensemble (MergeMin, MergeTopBottom, OptimalSize, then the per-sample minimum): the ensemble leaves no
+   sample with fewer unobserved plates than configured either *)
+Theorem C13_ensemble_minimum : forall ms n m rows ds out ds',
+  smooth_plates (SEnsemble true ms n m) rows ds = Ok (out, ds') ->
+  forall s, In s (sample_names (unobserved out)) ->
+    (m <= Z.of_nat (length (sample_plates s (unobserved out))))%Z.
+Proof. exact C13Ensemble.ensemble_minimum_w. Qed.
+Print Assumptions C13_ensemble_minimum.
 
 (* samples A: 1 plate, B: 3 plates, C: 1 plate; minimum 2 *)
 Definition w_np : list row :=
